@@ -167,6 +167,19 @@ func (b Service) VerifySessionV1TokenMessage(m *protosession.SessionToken, reqVe
 		return session.Object{}, err
 	}
 
+	// lifetime is checked on every request: a cached verdict (which may also come
+	// from object validation sharing the cache) must not outlive the epoch
+	currentEpoch, err := b.nm.Epoch()
+	if err != nil {
+		return session.Object{}, errors.New("can't fetch current epoch")
+	}
+	if sToken.ExpiredAt(currentEpoch) {
+		return session.Object{}, apistatus.ErrSessionTokenExpired
+	}
+	if !sToken.ValidAt(currentEpoch) {
+		return session.Object{}, fmt.Errorf("%s: token is invalid at %d epoch)", invalidRequestMessage, currentEpoch)
+	}
+
 	if err := b.verifySessionTokenAgainstRequest(sToken, reqVerb, reqCnr, reqObj); err != nil {
 		return session.Object{}, err
 	}
@@ -196,17 +209,6 @@ func (b Service) decodeAndVerifySessionTokenCommon(m *protosession.SessionToken,
 	var token session.Object
 	if err := token.FromProtoMessage(m); err != nil {
 		return token, fmt.Errorf("invalid session token: %w", err)
-	}
-
-	currentEpoch, err := b.nm.Epoch()
-	if err != nil {
-		return token, errors.New("can't fetch current epoch")
-	}
-	if token.ExpiredAt(currentEpoch) {
-		return token, apistatus.ErrSessionTokenExpired
-	}
-	if !token.ValidAt(currentEpoch) {
-		return token, fmt.Errorf("%s: token is invalid at %d epoch)", invalidRequestMessage, currentEpoch)
 	}
 
 	body, err := iprotobuf.GetFirstBytesField(mb)
@@ -358,6 +360,19 @@ func (b Service) VerifyBearerTokenMessage(m *protoacl.BearerToken) (bearer.Token
 		return bearer.Token{}, res.err
 	}
 
+	// lifetime is checked on every request: a cached verdict must not outlive the epoch
+	currentEpoch, err := b.nm.Epoch()
+	if err != nil {
+		var errInternal apistatus.ServerInternal
+		errInternal.SetMessage(fmt.Sprintf("get current epoch: %s", err))
+		return bearer.Token{}, errInternal
+	}
+	if !res.token.ValidAt(currentEpoch) {
+		var errAccessDenied apistatus.ObjectAccessDenied
+		errAccessDenied.WriteReason("bearer token has expired")
+		return bearer.Token{}, errAccessDenied
+	}
+
 	return res.token, nil
 }
 
@@ -374,18 +389,6 @@ func (b Service) decodeAndVerifyBearerTokenCommon(m *protoacl.BearerToken, mb []
 	var token bearer.Token
 	if err := token.FromProtoMessage(m); err != nil {
 		return token, fmt.Errorf("invalid bearer token: %w", err)
-	}
-
-	currentEpoch, err := b.nm.Epoch()
-	if err != nil {
-		var errInternal apistatus.ServerInternal
-		errInternal.SetMessage(fmt.Sprintf("get current epoch: %s", err))
-		return token, errInternal
-	}
-	if !token.ValidAt(currentEpoch) {
-		var errAccessDenied apistatus.ObjectAccessDenied
-		errAccessDenied.WriteReason("bearer token has expired")
-		return token, errAccessDenied
 	}
 
 	body, err := iprotobuf.GetFirstBytesField(mb)
